@@ -67,6 +67,9 @@ def run(chk):
             raise RuntimeError("harness does not build even without hooks: " + blog[-600:])
     else:
         dis, stats, sample = bufcorr.run(chk, binp, 3000 if thorough else 300, wild=35, tag="c01buf", seed_offset=1)
+        # the budgets enter() derives from the length (C01_initial is a statement about them): real buffer against the model
+        import C05 as _c05
+        dis += _c05.enter_correspondence(chk, binp)
         chk.note("buffer_correspondence_malformed_stream", stats)
         chk.add_eval(stats["steps"], stats["steps_followed_by_model"])
         chk.sample({"buffer_op_sequence": sample})
